@@ -175,6 +175,18 @@ def c14_tables(ctx, prog):
                 ctx.ob("C14.L5t", "%s:%d %s" % (F.name, node["l"][0], expr_str(node)[:50]), "the count handed on with `%s` does not exceed its "
                        "number of elements" % table, ok, det, nontrivial=True)
         total += TB.check_function(prog, F, helpers, report)
+    # shifts: the amount stays below the width of the shifted operand (event bit = 1 << slot index)
+    for F in prog.funcs_all:
+        if not F.file.startswith(prog.root) or "/test/" in F.file or "/examples/" in F.file:
+            continue
+
+        def rep(node, ok, det, F=F):
+            if ok is None:
+                undet.append("%s:%d %s" % (F.name, node["l"][0], expr_str(node)[:40]))
+                return
+            ctx.ob("C14.L5s", "%s:%d %s" % (F.name, node["l"][0], expr_str(node)[:40]), "the shift amount is non-negative and below the width "
+                   "of the shifted operand on every path", ok, det)
+        TB.check_shifts(prog, F, rep)
     ctx.extra["table_subscripts_without_verdict"] = undet[:20]
     ctx.floor("C14.L5t", 60)
 
